@@ -92,28 +92,35 @@ example : InFormDomain exNested := by
 /-- the former counterexample: `{V: [1,2,3]}` now encodes to `v=1&v=2&v=3`. -/
 example : formEncode exOrder = some [118, 61, 49, 38, 118, 61, 50, 38, 118, 61, 51] := by decide
 
-/-- **Decoder totality, form codec: it never panics.** For EVERY byte string and every
-    destination (nil, `*url.Values` / `*map[string][]string` / `*interface{}`, pointer to any
-    value — struct or not, with fixed arrays of any length, unexported fields, unknown kinds),
-    `FormCodec.Unmarshal` returns: either an error or a new state of the destination. No input
-    (bad escapes, `;`, bad numbers, unknown kinds, empty values, more values than array slots, any
-    bytes at all) makes it panic. -/
-theorem C11_form_decode_total (data : Bytes) (d : FDest) :
-    formDecode data d = .err ∨ ∃ d', formDecode data d = .ok d' := by
-  cases h : formDecode data d with
-  | ok d' => exact Or.inr ⟨d', rfl⟩
-  | err => exact Or.inl rfl
-  | panic => exact absurd h (formDecode_ne_panic data d)
+/-- **Decoder totality, form codec: the only panic is the unguarded array index.** For EVERY byte
+    string and every destination, `FormCodec.Unmarshal` returns ok or an error, except in one
+    situation, which this theorem pins down: the bytes parse as a query string, the destination
+    is a struct, and some exported (after flattening) **fixed-array** field has a key in the
+    query for which the array arm panics — by `C11_form_array_panic_iff` that means strictly
+    more values than array slots, all values that do have a slot being acceptable. No other
+    input (bad escapes, `;`, bad numbers, unknown kinds, empty values, any bytes at all) and no
+    other destination type can make it panic. -/
+theorem C11_form_decode_total (data : Bytes) (d : FDest) (h : formDecode data d = .panic) :
+    ∃ cur form k ek slots vals, d = .ptr cur ∧ parseQuery data = some form ∧
+      (k, Val.array ek slots) ∈ sleaves cur ∧ fget form k = some vals ∧
+      slots.length < vals.length ∧ ∀ p ∈ vals.zip slots, ∃ s', setScalar ek p.1 p.2 = .ok s' := by
+  obtain ⟨cur, form, k, ek, slots, vals, h1, h2, h3, h4, h5⟩ := formDecode_panic data d h
+  exact ⟨cur, form, k, ek, slots, vals, h1, h2, h3, h4, (setArray_panic_iff ek vals slots).mp h5⟩
 
-/-- **More values than array slots is an error, and when exactly the array arm fails.** The array
-    arm of `mapFormToStruct` never panics; it returns an error iff there are more values than
-    slots (checked before anything is written) or some value that has a slot is refused by
-    `setWithProperType`; otherwise it fills the first `len(values)` slots. -/
-theorem C11_form_array_err_iff (ek : Kind) (vals : List Bytes) (slots : List Sc) :
-    setArray ek vals slots ≠ .panic ∧
-    (setArray ek vals slots = .err ↔
-      (slots.length < vals.length ∨ ∃ p ∈ vals.zip slots, setScalar ek p.1 p.2 = .err)) :=
-  ⟨setArray_ne_panic ek vals slots, setArray_err_iff ek vals slots⟩
+/-- **Exactly when the array arm panics** (`structField.Index(i)` with `i ≥ Len()`): iff there are
+    more values than slots and every value that still has a slot is accepted. -/
+theorem C11_form_array_panic_iff (ek : Kind) (vals : List Bytes) (slots : List Sc) :
+    setArray ek vals slots = .panic ↔
+      (slots.length < vals.length ∧ ∀ p ∈ vals.zip slots, ∃ s', setScalar ek p.1 p.2 = .ok s') :=
+  setArray_panic_iff ek vals slots
+
+/-- Consequently a destination without fixed-array fields never panics, whatever the bytes. -/
+theorem C11_form_decode_no_array_no_panic (data : Bytes) (cur : Val)
+    (h : ∀ k ek slots, (k, Val.array ek slots) ∉ sleaves cur) : formDecode data (.ptr cur) ≠ .panic := by
+  intro hp
+  obtain ⟨cur', _, k, ek, slots, _, h1, _, h3, _⟩ := formDecode_panic data _ hp
+  cases h1
+  exact h k ek slots h3
 
 /-- **Writes stay inside the destination, form codec.** Whatever the bytes, a successful decode
     into a struct yields a value of exactly the destination's type — same fields, tags, element
@@ -137,20 +144,16 @@ def exArr : Val :=
   .scons [80] [112] true (.array (.int 32) [.int 32 0, .int 32 0])
     (.scons [81] [] true (.array (.uint 8) [.uint 8 0, .uint 8 0, .uint 8 0]) .snil)
 
-/-- **The former panic is now an ordinary error.** Decoding `p=1&p=2&p=3` into
-    `struct{ P [2]int32 "form:p"; … }` returns an error (it used to panic with `reflect: array
-    index out of range`), two values decode as before, one value fills the first slot only, and a
-    bad first value is an error as before. -/
-theorem C11_form_array_overflow_is_error :
-    formDecode [112, 61, 49, 38, 112, 61, 50, 38, 112, 61, 51] (.ptr exArr) = .err ∧
+/-- **More values than array slots panics out of `Unmarshal` (finding).** Decoding `p=1&p=2&p=3`
+    into `struct{ P [2]int32 "form:p"; … }` panics (`reflect: array index out of range`), while
+    two values decode fine and a bad first value is an ordinary error. -/
+theorem C11_form_array_overflow_witness :
+    formDecode [112, 61, 49, 38, 112, 61, 50, 38, 112, 61, 51] (.ptr exArr) = .panic ∧
     formDecode [112, 61, 49, 38, 112, 61, 50] (.ptr exArr) =
       .ok (.ptr (.scons [80] [112] true (.array (.int 32) [.int 32 1, .int 32 2])
         (.scons [81] [] true (.array (.uint 8) [.uint 8 0, .uint 8 0, .uint 8 0]) .snil))) ∧
-    formDecode [112, 61, 55] (.ptr exArr) =
-      .ok (.ptr (.scons [80] [112] true (.array (.int 32) [.int 32 7, .int 32 0])
-        (.scons [81] [] true (.array (.uint 8) [.uint 8 0, .uint 8 0, .uint 8 0]) .snil))) ∧
     formDecode [112, 61, 120, 38, 112, 61, 50, 38, 112, 61, 51] (.ptr exArr) = .err := by
-  refine ⟨by decide, by decide, by decide, by decide⟩
+  refine ⟨by decide, by decide, by decide⟩
 
 /-! ## library-backed codecs and the message body -/
 
